@@ -81,7 +81,27 @@ def build(case):
     C2.iotaVal = 0.0 if case['iota'] != 0.0 else 0.7
     C2.R0 = 7.0 if case.get('R0') is None else 2.0 * case['R0']
     ParallelGradient(bs, eta, lay, C2, order=case['order'])
+    # a rotational transform that depends on the radius (a Constants object whose `iota` is overridden), on single-block layouts
+    # (the table of theta positions is indexed with the radial index of the caller, observation O2)
+    rdep = case['iota'] != 0.0 and list(case['nprocs']) == [1] and case['sub'] % 3 == 0
+
+    def make_iota(i0):
+        return (lambda r=C.rp: i0 * (1.0 + 0.15 * np.asarray(r, dtype=float))) if rdep else None
+    if rdep:
+        C.iota = make_iota(case['iota'])
     pg = ParallelGradient(bs, eta, lay, C, order=case['order'])
+    # the operator has been built: its tables are fixed.  The Constants object it was given is changed afterwards (re-used to set up
+    # another operator); the reference computations use an untouched copy
+    Cref = Constants()
+    Cref.iotaVal = case['iota']
+    Cref.R0 = C.R0
+    if rdep:
+        Cref.iota = make_iota(case['iota'])
+    C.iotaVal = -3.3 * (1.0 + abs(case['iota']))
+    C.R0 = 0.37 * C.R0
+    if rdep:
+        C.iota = lambda r=C.rp: 0.0 * np.asarray(r, dtype=float) - 1.7
+    C = Cref
     rs = int(lay.starts[lay.inv_dims_order[0]])
     return dict(bs=bs, kn=kn, mknots=mknots, theta=theta, z=z, r=r, C=C, lay=lay, pg=pg, rs=rs,
                 nr=int(lay.shape[lay.inv_dims_order[0]]), rng=rng, eta=eta)
@@ -105,7 +125,7 @@ def reference(case, B, ri, phi):
     s, w = fd_weights_exact(order)
     dz = float(B['z'][1] - B['z'][0])
     r = float(B['r'][B['rs'] + ri])
-    iota = float(C.iotaVal)
+    iota = float(np.asarray(C.iota(np.array([r]))).ravel()[0])        # the rotational transform of THIS radius
     bz = 1.0 / np.sqrt(1.0 + (r * iota / C.R0) ** 2)
     osp = OracleSpline(B['kn'], case['deg'], B['theta']).fit([phi[a] for a in range(nz)])
     ref = np.zeros((nz, nq))
@@ -168,7 +188,7 @@ def _run_case(chk, drv, case, stats):
     fac = abs(fr(bz) / fr(dz))
     bad = None
     worst = F(0)
-    sens = [point_sensitivity(B['kn'], B['theta'], float(B['C'].iotaVal) * (dz * l) / B['C'].R0) for l in sh]
+    sens = [point_sensitivity(B['kn'], B['theta'], float(np.asarray(B['C'].iota(B['r'][B['rs'] + ri:B['rs'] + ri + 1])).ravel()[0]) * (dz * l) / B['C'].R0) for l in sh]
     for a in range(nz):
         scale = fac * sum(abs(fr(weights[k])) * sens[k] * M[(a + sh[k]) % nz] for k in range(order + 1))
         for q in range(nq):
